@@ -1,6 +1,6 @@
 import Py4hwV.Drv.Proto
 import Py4hwV.Verilog.SExp
-import Py4hwV.Proofs.C03EmitFlat
+import Py4hwV.Emit.FlatText
 import Py4hwV.Verilog.EmitMD
 /- C03 emit-model driver (session): for which designs is well-formedness of the REAL text PROVED by `C03Emit.emit_wf_flat`?
      design <sexp>     the parsed real text (harness/vparse.py)                                   -> ok | parse-error
